@@ -97,15 +97,19 @@ func ruleWriterCount(r *Run, p *Prog, rule string, rels []string, exempt map[str
 	sort.Slice(tgts, func(i, j int) bool { return tgts[i].name < tgts[j].name })
 	for _, t := range tgts {
 		// private helpers are kept as calls (the path table of a formatter with everything inlined is
-		// out of reach) unless they can carry the count: a pass-through of the slice, or an int result
+		// out of reach) unless they can carry the count: a pass-through of the slice, an int result or a byte-slice result
 		f := p.View(t.f, "keep-unless-count-carrier", func(g *ssa.Function) bool {
 			if passThroughBytes(g) {
 				return false
 			}
 			res := g.Signature.Results()
 			for i := 0; i < res.Len(); i++ {
-				if b, ok := res.At(i).Type().Underlying().(*types.Basic); ok && b.Info()&types.IsInteger != 0 {
+				t := res.At(i).Type()
+				if b, ok := t.Underlying().(*types.Basic); ok && b.Info()&types.IsInteger != 0 {
 					return false
+				}
+				if isByteSlice(t) || (isPointer(t) && isByteSlice(derefType(t))) {
+					return false // a private copy of the slice (the diode's pooled copy) carries its length
 				}
 			}
 			return true
